@@ -482,7 +482,9 @@ func (ex *Exec) freshVar(name string, w int) *Term {
 		key := ex.tmPosKey() + "/" + name
 		n := ex.tm.posCount[key]
 		ex.tm.posCount[key] = n + 1
-		return ex.tb.Var(fmt.Sprintf("%s.%s#%d", ex.tm.name, key, n), w)
+		v := ex.tb.Var(fmt.Sprintf("%s.%s#%d", ex.tm.name, key, n), w)
+		ex.tmEvent(&Event{Kind: "nondet", Name: name, Var: v})
+		return v
 	}
 	n := ex.varCount[name]
 	ex.varCount[name] = n + 1
@@ -1792,7 +1794,7 @@ func (ex *Exec) invoke(fv *FuncV, args []Value, fr *Frame) Value {
 		defer func() { ex.inHook[name] = false }()
 		if ex.inThread() {
 			// environment stubs execute atomically
-			ex.tmEvent(&Event{Kind: "atomic-begin", Name: h.Name()})
+			ex.tmEvent(&Event{Kind: "atomic-begin", Name: h.Name(), Pos: ex.curPos})
 			ex.tm.atomic++
 			defer func() {
 				ex.tm.atomic--
